@@ -528,7 +528,7 @@ def pred_c09_all(line, st):
 PROPS["C09"] = dict(
     module="TmcgProps.C09",
     areas=[("arith", {"quick": 600, "thorough": 30000}, [], "san"),
-           ("rabin", {"quick": 1, "thorough": 1}, ["--only-sqrt", "--sqrt-primes", "300"], "san")],
+           ("rabin", {"quick": 1, "thorough": 1}, ["--only-sqrt", "--sqrt-primes", "150"], "san")],
     obligations=[("Tmcg.C09.powm_is_power", "full"), ("Tmcg.C09.powm_neg_is_inverse_power", "full"),
                  ("Tmcg.C09.spowm_eq_powm", "full"), ("Tmcg.C09.spowm_refusals", "full"),
                  ("Tmcg.C09.fpowm_eq_powm", "full"), ("Tmcg.C09.fspowm_eq_powm", "full"),
@@ -540,7 +540,7 @@ PROPS["C09"] = dict(
     level_text="Theorems in Lean 4: every modular-exponentiation variant of the model (constant-time with dummy operations, table-based, always-multiply, unsigned, base-blinded) equals plain "
                "modular exponentiation for every base coprime to the modulus and every exponent sign; refusals are exceptions, never wrong values. Model vs real functions: exhaustive small moduli + random big cases. "
                "Square roots: all three branches modulo a prime (for every non-residue draw), CRT combination modulo distinct odd primes and the fast variant for Blum moduli square back to their argument (theorems), "
-               "exhaustive over all primes below 300 with all residues and all products of two primes below 60 in every run. "
+               "exhaustive over all primes below 150 with all residues and all products of two primes below 60 in every run. "
                "Partial: interpolation is proved in the DKG model only, prime generators, back-end conversion and the big-integer wrapper are not yet covered by this check (area arith2 under construction).",
     level_note=LEVEL_NOTE + " GMP's mpz_powm/mpz_invert/mpz_jacobi are modelled and the model layer itself is compared with GMP.",
     assumptions=["partial: interpolation / prime generation / mpz<->mpi conversion / TMCG_Bigint not yet covered by this check"],
